@@ -1326,7 +1326,13 @@ def oracle_normalize(case):
         elif np.any(diff2 >= 10 * allow + edge):
             require(not v2, lambda: 'is_normal(%s, atol=%r, rtol=%r) is True although the tensor differs from its normalisation by %.3g' % (s, atol, rtol, float(diff2.max())))
             labels.add('is_normal_tols_false')
-    if built_from == s or s == 'triclinic':
+    # a constant within a factor 5 of the Cij setter's documented 1e-9 clean-up (nu = 1e-9 makes C12 = 1e-9 C11) is kept by one route
+    # and zeroed by the other (normalized_as re-derives it from K and mu): no verdict asked there
+    rel6 = np.abs(C6) / float(np.abs(C6).max())
+    on_floor = bool(np.any((rel6 > 2e-10) & (rel6 < 5e-9)))
+    if on_floor:
+        labels.add('constant_on_cleanup_floor')
+    if (built_from == s or s == 'triclinic') and not on_floor:
         require(verdict, lambda: 'is_normal(%s) is False for a tensor built from %s constants' % (s, s))
         _close(NC, C6, 1e-8 * cmax, 'normalized_as(%s) of a tensor built from %s constants' % (s, s))
         labels.add('fixed_point')
